@@ -145,8 +145,11 @@ def vrp_structure_problems(customers, n_vehicles, routes, unassigned):
     return bad
 
 
-def vrp_arrival_problems(customers, routes, arrivals):
+def vrp_arrival_problems(customers, routes, arrivals, exact=False):
+    """exact=True: the instance is one on which float arithmetic is exact (oracles/jobshop_vrp_gen.vrp_exactness),
+    so the recurrence must be met to the last bit; otherwise relative/absolute tolerance 1e-9."""
     bad = []
+    same = (lambda g, e: g == e) if exact else close
     if len(arrivals) != len(routes):
         return [("arrival-times", f"{len(arrivals)} arrival lists for {len(routes)} routes")]
     for v, r in enumerate(routes):
@@ -154,14 +157,14 @@ def vrp_arrival_problems(customers, routes, arrivals):
             continue
         exp = vrp_arrivals(customers, r)
         got = list(arrivals[v])
-        if len(got) != len(exp) or any(not close(g, e) for g, e in zip(got, exp)):
+        if len(got) != len(exp) or any(not same(g, e) for g, e in zip(got, exp)):
             bad.append(("arrival-times", f"route {v} = {list(r)}: arrival_times {got} but travel/wait/service gives {exp}"))
     return bad
 
 
-def vrp_ok_problems(customers, n_vehicles, routes, unassigned, arrivals):
+def vrp_ok_problems(customers, n_vehicles, routes, unassigned, arrivals, exact=False):
     return vrp_structure_problems(customers, n_vehicles, routes, unassigned) + \
-        vrp_arrival_problems(customers, routes, arrivals)
+        vrp_arrival_problems(customers, routes, arrivals, exact)
 
 
 def vrp_objective(customers, vehicles, routes, unassigned, *, distance_weight=1.0, vehicle_weight=0.0,
